@@ -97,12 +97,17 @@ class Env:
     def __init__(self, probe, n, timestep, states):
         self.probe, self.n, self.timestep, self.states = (
             probe, n, timestep, states)
+        self.shared = {}
+
+
+TEMPLATE_HOOKS = {}     # name -> callable(template, env) (see subst)
 
 
 def make_process(spec):
     spec = dict(spec)
     kind = spec.pop('cls', 'P')
-    cls = {'P': Probe, 'S': ProbeStep, 'D': ProbeDeriver}[kind]
+    cls = {'P': Probe, 'S': ProbeStep, 'D': ProbeDeriver,
+           'PC': ProbeClassCondition}[kind]
     return cls(spec)
 
 
@@ -126,6 +131,9 @@ def subst(tpl, env):
     {'$state': path}  -> the value the probe read at that path of states
     {'$stateref': path} -> the very object found there (no copy)
     {'$key': prefix}  -> '<prefix><invocation number>'
+    {'$call': name, ...} -> TEMPLATE_HOOKS[name](template, env)
+    {'$same': name, 'value': tpl} -> ONE object per name within an update
+                         (the process returns the same dict for two ports)
     """
     if isinstance(tpl, str):
         if tpl == '$tok':
@@ -148,6 +156,12 @@ def subst(tpl, env):
             if key in by_n:
                 return subst(by_n[key], env)
             return subst(tpl.get('$else', {}), env)
+        if '$call' in tpl:
+            return TEMPLATE_HOOKS[tpl['$call']](tpl, env)
+        if '$same' in tpl:
+            if tpl['$same'] not in env.shared:
+                env.shared[tpl['$same']] = subst(tpl['value'], env)
+            return env.shared[tpl['$same']]
         if '$probes' in tpl:
             return build_tree(tpl['$probes'])
         if '$lit' in tpl:
@@ -192,6 +206,7 @@ class _ProbeMixin:
         'pid': None, 'schema': {}, 'ts': 1, 'cond': 'always',
         'update': {}, 'init': None, 'ts_menu': None, 'log_states': True,
         'log_snapshot': False, 'raise_at': None, 'payload': 0,
+        'reuse_update': False,
     }
 
     def _probe_init(self):
@@ -270,8 +285,17 @@ class _ProbeMixin:
         if self.parameters['raise_at'] is not None and \
                 n == self.parameters['raise_at']:
             raise InjectedFault(f'injected fault in {self.pid} call {n}')
-        upd = subst(self.parameters['update'], Env(self, n, timestep, states))
-        log('return', self.uid, self.pid, n, now(), upd)
+        if self.parameters.get('reuse_update') and \
+                getattr(self, '_reused', None) is not None:
+            # the process hands back the very object it returned before
+            upd = self._reused
+        else:
+            upd = subst(self.parameters['update'],
+                        Env(self, n, timestep, states))
+            if self.parameters.get('reuse_update'):
+                self._reused = upd
+        log('return', self.uid, self.pid, n, now(), copy.deepcopy(upd)
+            if self.parameters.get('reuse_update') else upd)
         return upd
 
 
@@ -279,6 +303,12 @@ class Probe(_ProbeMixin, Process):
     def __init__(self, parameters=None):
         super().__init__(parameters)
         self._probe_init()
+
+
+class ProbeClassCondition(Probe):
+    """A process class that declares its condition variable in the class
+    ``defaults`` (not in the constructor's parameters)."""
+    defaults = dict(_ProbeMixin.defaults, _condition=('gate', 'on'))
 
 
 class ProbeStep(_ProbeMixin, Step):
